@@ -68,6 +68,8 @@ def tucOracle3 (pos12 : Iso3 Float) (m : Manifold3 Float) (thr dsq : Float) (ok 
       if (n.p2.sub o.p2).normSq != 0 then some "p2-changed"
       else if unit && !(close n.dist d) then some s!"dist-identity dist={n.dist} expected={d}"
       else if !(leTol ((n.p1.sub o.p1).normSq) D tolDefault) then some "p1-moved-beyond-threshold"
+      else if !(leTol ((n.p1.sub o.p1).normSq + (n.dist - o.dist) * (n.dist - o.dist)) D tolDefault) then
+        some s!"warm-start-accepted-large-normal-motion dist:{o.dist}->{n.dist} threshold²={D}"
       else if !(leTol 0 (n.dist * o.dist) tolDefault) then some "sign-flipped"
       else none
     match bad with
@@ -80,7 +82,7 @@ def tucOracle3 (pos12 : Iso3 Float) (m : Manifold3 Float) (thr dsq : Float) (ok 
       let lp2 := M.act o.p2
       let d := (lp2.sub o.p1).dot n1
       let np1 := lp2.sub (n1.smul d)
-      leTol (d * o.dist) 0 tolDefault || leTol D ((np1.sub o.p1).normSq) tolDefault
+      leTol (d * o.dist) 0 tolDefault || leTol D ((np1.sub o.p1).normSq + (d - o.dist) * (d - o.dist)) tolDefault
     if olds.isEmpty || angleReason || ptReason then "pass" else "fail false-without-reason"
 
 def tucOracle2 (pos12 : Iso2 Float) (m : Manifold2 Float) (thr dsq : Float) (ok : Bool) (m' : Manifold2 Float) : String :=
@@ -103,6 +105,8 @@ def tucOracle2 (pos12 : Iso2 Float) (m : Manifold2 Float) (thr dsq : Float) (ok 
       if (n.p2.sub o.p2).normSq != 0 then some "p2-changed"
       else if unit && !(close n.dist d) then some s!"dist-identity dist={n.dist} expected={d}"
       else if !(leTol ((n.p1.sub o.p1).normSq) D tolDefault) then some "p1-moved-beyond-threshold"
+      else if !(leTol ((n.p1.sub o.p1).normSq + (n.dist - o.dist) * (n.dist - o.dist)) D tolDefault) then
+        some s!"warm-start-accepted-large-normal-motion dist:{o.dist}->{n.dist} threshold²={D}"
       else if !(leTol 0 (n.dist * o.dist) tolDefault) then some "sign-flipped"
       else none
     match bad with
@@ -114,7 +118,7 @@ def tucOracle2 (pos12 : Iso2 Float) (m : Manifold2 Float) (thr dsq : Float) (ok 
       let lp2 := M.act o.p2
       let d := (lp2.sub o.p1).dot n1
       let np1 := lp2.sub (n1.smul d)
-      leTol (d * o.dist) 0 tolDefault || leTol D ((np1.sub o.p1).normSq) tolDefault
+      leTol (d * o.dist) 0 tolDefault || leTol D ((np1.sub o.p1).normSq + (d - o.dist) * (d - o.dist)) tolDefault
     if olds.isEmpty || angleReason || ptReason then "pass" else "fail false-without-reason"
 
 def ftuc3 (r : Bool × Manifold3 Float) : String := s!"{fb r.1} {fman3 r.2}"
@@ -202,7 +206,9 @@ def seqShapes3 (s : Seq3) : Sh3 × Sh3 :=
   | 5 => (.halfspace a, .capsule b.x b.y)
   | 6 => (.capsule a.x a.y, .halfspace b)
   | 7 => (.halfspace a, .cuboid b e)
-  | _ => (.cuboid a e, .halfspace b)
+  | 8 => (.cuboid a e, .halfspace b)
+  | 9 => (.cuboid a 0, .cuboid b 0)
+  | _ => (.capsule a.x a.y, .capsule b.x b.y)
 
 def clampR (x lo hi : Rat) : Rat := if x < lo then lo else if hi < x then hi else x
 /-- squared distance from `p` to the cuboid `[-he, he]` -/
@@ -270,11 +276,13 @@ and against the observed one-shot `contact`. -/
 def manifoldOracleQ (sh : Sh3 × Sh3) (M : Iso3 Rat) (pred : Float) (m : Manifold3 Float)
     (os : Option (Bool × Float)) (drift : Rat) (exactKnown : Bool) : Option String :=
   if !(finm3 m) then some "nonfinite-output" else
+  -- closed-form generators (`exactKnown`): a contact must exist whenever the distance is below the prediction and every
+  -- kept contact has `dist ≤ prediction`; SAT/clipping generators: a contact must exist when the shapes penetrate
   let P := q pred
   let n1 := q3 m.n1; let n2 := q3 m.n2
   let pts := m.points.map qc3
   let tol : Rat := tolDefault
-  let wtol : Rat := tol + drift
+  let wtol : Rat := tol + drift * drift
   let D := exactDist3 sh M
   let deep : Option Rat := pts.foldl (fun acc c => match acc with | none => some c.dist | some d => some (min d c.dist)) none
   let presence : Option String :=
@@ -288,7 +296,8 @@ def manifoldOracleQ (sh : Sh3 × Sh3) (M : Iso3 Rat) (pred : Float) (m : Manifol
     | some (true, od), some d =>
       if close d (q od) ((1 / 1000000 : Rat) + drift) then none else some s!"deepest={d} one-shot={q od}"
     | some (true, od), none =>
-      if q od < P - (1 / 1000000) * (1 + rabs (q od) + rabs P) then some s!"no-contact-but-one-shot={q od}" else none
+      let lim := if exactKnown then P else min P 0
+      if q od < lim - (1 / 1000000) * (1 + rabs (q od) + rabs P) then some s!"no-contact-but-one-shot={q od}" else none
     | some (false, _), some d =>
       if d < P - (1 / 1000000) * (1 + rabs d + rabs P) then some s!"contact-dist={d}-but-one-shot-none" else none
     | _, _ => none
@@ -303,7 +312,7 @@ def manifoldOracleQ (sh : Sh3 × Sh3) (M : Iso3 Rat) (pred : Float) (m : Manifol
       | some r => some s!"p1-{r}"
       | none => match onShape3 sh.2 c.p2 wtol with
         | some r => some s!"p2-{r}"
-        | none => if leTol c.dist P tol then none else some s!"dist={c.dist}>prediction"
+        | none => if !exactKnown || leTol c.dist P tol then none else some s!"dist={c.dist}>prediction"
   match bad with
   | b :: _ => some b
   | [] => presence <|> oneshot
@@ -312,15 +321,21 @@ def manifoldOracle3 (sh : Sh3 × Sh3) (pos12 : Iso3 Float) (pred : Float) (m : M
     (os : Option (Bool × Float)) (drift : Rat) (exactKnown : Bool) : Option String :=
   manifoldOracleQ sh (qiso3 pos12) pred m os drift exactKnown
 
-def seqOracle3 (s : Seq3) (ms : List (Manifold3 Float)) : String :=
+/-- `warm = true`: pairs whose generator uses the `try_update_contacts` fast path (cuboid/cuboid,
+capsule/capsule): witnesses may drift by `√DIST_SQ_THRESHOLD = 1e-3` per consecutive fast-path call, and the
+exact distance of the pair is not recomputed by the oracle (the one-shot `contact` is the reference). -/
+def seqOracle3 (s : Seq3) (warm : Bool) (ms : List (Manifold3 Float)) : String :=
   if ms.length != s.poses.length then "fail wrong-number-of-calls" else
-  if s.kind > 8 then "skip unknown-kind" else
+  if (!warm && s.kind > 8) || (warm && (s.kind < 9 || s.kind > 10)) then "skip unknown-kind" else
   let sh := seqShapes3 s
   let rec go : Nat → List (Iso3 Float) → List (Manifold3 Float) → Option String
     | _, [], _ => none
     | _, _, [] => none
     | i, p :: ps, m :: ms =>
-      match manifoldOracle3 sh p s.pred m (s.oneshot[i]?) 0 true with
+      let drift : Rat := if warm then ((i : Rat) + 1) / 1000 else 0
+      -- capsule/capsule: the one-shot `contact` itself is unreliable on collinear axes (C02), not used as a reference
+      let os := if s.kind == 10 then none else s.oneshot[i]?
+      match manifoldOracle3 sh p s.pred m os drift (!warm) with
       | some r => some s!"call={i} {r}"
       | none => go (i + 1) ps ms
   match go 0 s.poses ms with
@@ -700,7 +715,7 @@ def handler (fn : String) : Option Handler :=
   | "seq3" => some {
       model := fun a => run (do let s ← pseq3; pure (seqModel3 s)) a
       oracle := fun a o => match run pseq3 a with
-        | some s => withOut (pmanlist3 s.poses.length) o (seqOracle3 s)
+        | some s => withOut (pmanlist3 s.poses.length) o (seqOracle3 s false)
         | none => "skip bad-args" }
   | "comp3" => some {
       model := fun a => match run (pcomp false) a with | some c => compModel c | none => none
@@ -711,6 +726,11 @@ def handler (fn : String) : Option Handler :=
       model := fun _ => some "oracle-only"
       oracle := fun a o => match run (pcomp true) a with
         | some c => withOut (pcalls c.poses.length) o (compOracle c true)
+        | none => "skip bad-args" }
+  | "seq3o" => some {
+      model := fun _ => some "oracle-only"
+      oracle := fun a o => match run pseq3 a with
+        | some s => withOut (pmanlist3 s.poses.length) o (seqOracle3 s true)
         | none => "skip bad-args" }
   | "seq2" => some {
       model := fun a => run (do let s ← pseq2; pure (seqModel2 s)) a
